@@ -219,8 +219,8 @@ package scanner
 // states are stateSingleComment entered through another door (this includes the line end, which must be handed on to the
 // state saved by startComment).
 //@ equiv stepFunc(s, c) [C05] : pairs 10/13, 32/9 : byteat data,file.content curIndex : s.step, s.stepStack, s.finds, s.stack, s.curIndex, s.open, s.openBegin, s.lastEnd, s.dataSize, s.lastDirectiveParameters
-//@ equiv like stepFunc stateCommentStarted stateSingleComment [C05] : c != 35
-//@ equiv like stepFunc stateCommentDouble stateSingleComment [C05] : c != 35
+//@ equiv like stepFunc stateCommentStarted stateSingleComment [C05,C14] : c != 35
+//@ equiv like stepFunc stateCommentDouble stateSingleComment [C05,C14] : c != 35
 
 // C05, line comments: after '#', any byte other than '#', a line end or the end of file puts the scanner into
 // stateSingleComment, which ignores every byte up to the line end; nothing else of the scanner changes, so the state
